@@ -413,6 +413,8 @@ def run_real(case, d):
     cls = None
     orig_step = None
     ab = case.get("abort")
+    import s_backfill                      # tie of the `disconnect` back-fill (feeds the SoC CSV)
+    obs["backfill_rec"] = s_backfill.Recorder().start()
     try:
         if ab and ab["mode"] == "raise":
             cls = strat_mod.class_from_str(strat_name)
@@ -445,6 +447,7 @@ def run_real(case, d):
                             "file": os.path.basename(last.filename), "line": last.lineno}
         obs["stdout"] = buf.getvalue()
     finally:
+        obs["backfill_rec"].stop()
         simulate.Scenario = scen_mod.Scenario
         simulate.calculate_costs = orig_cc
         if cls is not None and orig_step is not None:
@@ -786,6 +789,13 @@ def eval_run(case):
         if not aborted and n != s.n_intervals:
             viol.append(("one_row_per_step", "C18:completed_run_wrong_length", "%d results for %d intervals"
                          % (n, s.n_intervals)))
+    import s_backfill
+    bf_lines, bf_impl = s_backfill.lines_for(s, obs["backfill_rec"])
+    lines += bf_lines
+    impl += bf_impl
+    bf_viol, bf_stats = s_backfill.oracle(s, obs["backfill_rec"])
+    viol += bf_viol
+    stats += bf_stats
     return {"lines": lines, "impl": impl, "violations": viol, "nontrivial": active and bool(lines),
             "stats": sorted(set(stats)), "num": num}
 
@@ -1351,6 +1361,9 @@ def parse_local(txt):
 
 
 def compare(case, impl, model):
+    if impl.startswith("@s_backfill "):
+        import s_backfill
+        return s_backfill.compare(case, impl, model)
     if case["k"] == "split":
         return None if impl == model.split(" | ")[0] else "differs"
     im = json.loads(impl)
